@@ -386,7 +386,7 @@ def step(ctx, U, ob, j, op, hist):
     if r_out.failed:
         ctx.probe("failed_op_then_continue")
         ctx.fault("op_failed_" + type(r_out.exc).__name__)
-    elif not eq(r_out.value, t_out.value) and (k == "correct_default" or op == ("read", "corr_tol")) and ob["reloaded"] and model["opts"] is not None \
+    elif not eq(r_out.value, t_out.value) and (k in ("correct_default", "generate") or op == ("read", "corr_tol")) and ob["reloaded"] and model["opts"] is not None \
             and known_active("C20-K3-user-set-correction-options-lost-by-save-load"):
         # K3: exactly what a fresh orbit WITHOUT the user-set options computes
         m2 = dict(model, opts=None)
